@@ -587,6 +587,43 @@ def rule_r5(rep, program: Program):
     return r
 
 
+def rule_r7(rep, program: Program):
+    """`np.array(m)` asks `__array__` for a copy.  A hook that does not accept the `copy` keyword leaves the copying to
+    NumPy; one that accepts it is trusted by NumPy (2.x) to have honoured it, so returning the cached dense array itself
+    when `copy` may be True hands the caller a writeable alias of the matrix's own storage."""
+    import ast
+
+    from ..model import execution_condition, is_self_attr, norm
+
+    r = rep.rule("R7", "the array-protocol hook never returns the matrix's own cached array when a copy was requested", floor=1)
+    n = 0
+    _seen_cls = set()
+    for k in program.subclasses("Matrix") + ([program.cls("Matrix")] if program.cls("Matrix") is not None else []):
+        if k.name in _seen_cls:
+            continue
+        _seen_cls.add(k.name)
+        f = k.methods.get("__array__")
+        if f is None:
+            continue
+        n += 1
+        takes_copy = "copy" in f.params
+        rets = [x for x in ast.walk(f.node) if isinstance(x, ast.Return) and x.value is not None]
+        r.inst({"class": k.name, "accepts copy=": takes_copy, "returns": [norm(x.value)[:40] for x in rets]})
+        if not takes_copy:
+            continue  # NumPy makes the copy itself
+        for x in rets:
+            v = x.value
+            own = is_self_attr(v) or (isinstance(v, ast.Attribute) and is_self_attr(v.value))
+            if not own:
+                continue
+            conds = execution_condition(f.node, x, stop_at=(ast.FunctionDef,))
+            if not any("copy" in norm(t) for t, _tr in conds):
+                r.violate(PROP, f"{k.name}.__array__:returns-own-array:{norm(v)[:30]}", f"{k.name}.__array__ accepts `copy=` but returns `{norm(v)[:40]}` - the matrix's own cached array - on a path that does not look at it: `np.array(m)` / `np.array(m, copy=True)` then hands out a writeable alias, and writing into the caller's \"copy\" changes the matrix (its array no longer matches its parameters, equality and hash)", node=x, file=f.file)
+    if n == 0:
+        raise AnalysisError("no matrix class defines __array__")
+    return r
+
+
 def run(rep, program: Program, tier: str) -> None:
     rep.explanation = (
         "Effect analysis of matrices.py (attribute stores outside constructors must be guarded lazy "
@@ -602,6 +639,7 @@ def run(rep, program: Program, tier: str) -> None:
     rep.isolate(rule_r1, rep, program)
     rep.isolate(rule_r2_r3, rep, program)
     rep.isolate(rule_r5, rep, program)
+    rep.isolate(rule_r7, rep, program)
     # a cache handed on to a derived matrix (capacitance, factor, eigendecomposition, LU) that does not satisfy its defining
     # identity makes a property of the derived matrix depend on which property of the source was evaluated first: the
     # result of `m.T.inv` then depends on the history of `m` (shared with C10-R5)
